@@ -348,6 +348,10 @@ pub assume_specification<T: Clone, const N: usize> [heapless::Vec::<T, N>::exten
         hv(*old(v)).len() + other@.len() > N ==> r is Err && hv(*final(v)) == hv(*old(v));
 pub assume_specification<T: Clone, const N: usize> [<heapless::Vec<T, N> as Clone>::clone] (v: &heapless::Vec<T, N>) -> (r: heapless::Vec<T, N>)
     ensures hv(r) == hv(*v);
+pub assume_specification<T, const N: usize> [heapless::Vec::<T, N>::is_full] (v: &heapless::Vec<T, N>) -> (r: bool)
+    ensures r == (hv(*v).len() == N);
+pub assume_specification<T, const N: usize> [heapless::Vec::<T, N>::capacity] (v: &heapless::Vec<T, N>) -> (r: usize)
+    ensures r == N;
 pub assume_specification<T, const N: usize> [<heapless::Vec<T, N> as core::ops::Deref>::deref] (v: &heapless::Vec<T, N>) -> (r: &[T])
     ensures r@ == hv(*v);
 
